@@ -6,7 +6,7 @@ import world
 
 def run(ctx):
     quick = ctx.tier == "quick"
-    sl = {k: world.SLICES[k] for k in ("pre", "pre2", "model", "poc")}
+    sl = {k: world.SLICES[k] for k in ("pre", "pre2", "model", "poc", "smooth")}
     curve_check.run_engine(
         ctx, "C06_", sl,
         n_random=120 if quick else 1200, rand_len=30,
